@@ -134,3 +134,31 @@ Proof.
     eexists. split; [vm_compute; reflexivity|]. vm_compute. auto.
   - vm_compute. split; [reflexivity|]. eexists. split; [reflexivity|]. auto.
 Qed.
+
+(* ---------- a failing message whose accepted prefix is dropped from the database but kept in the pool ---------- *)
+(* all nodes of a message in ONE batch that an early error return throws away, while the pool has already moved on *)
+Definition add_nodes_drop (fuel : nat) (T : tree) (b : list item) (s : st) : st * bool :=
+  if synced s then (s, true)
+  else
+    let '(RQ, err) := add_items true fuel T b (store s, pool s) in
+    if err then (mkSt (store s) (snd RQ) false, true)
+    else (mkSt (fst RQ) (snd RQ) (is_nil (snd RQ)), false).
+
+(* root, then the message [extension 3; junk]: the error is returned, 3 is no longer requested and not stored; the remaining
+   nodes arrive, the pool empties, the stage is "synchronised" — with node 3 missing *)
+Lemma failed_message_dropped_batch_refuted :
+  let s1 := fst (add_nodes true 5 exT [w 1] (init 1)) in
+  let s2 := fst (add_nodes_drop 5 exT [w 3; IBad] s1) in
+  let s3 := fst (add_nodes true 5 exT [w 2; w 4] s2) in
+  snd (add_nodes_drop 5 exT [w 3; IBad] s1) = true /\ ~ In 3 (pool_hashes s2) /\ stored (store s2) 3 = false /\
+  pool s3 = [] /\ synced s3 = true /\ stored (store s3) 3 = false.
+Proof. vm_compute. repeat split; auto. intros [H|[H|[H|[]]]]; discriminate. Qed.
+
+(* the same message as the code handles it: 3 stays stored, nothing is lost *)
+Example failed_message_kept :
+  let s1 := fst (add_nodes true 5 exT [w 1] (init 1)) in
+  let s2 := fst (add_nodes true 5 exT [w 3; IBad] s1) in
+  let s3 := fst (add_nodes true 5 exT [w 2; w 4] s2) in
+  snd (add_nodes true 5 exT [w 3; IBad] s1) = true /\ stored (store s2) 3 = true /\ pool s3 = [] /\ synced s3 = true /\
+  forallb (fun h => stored (store s3) h) [1; 2; 3; 4] = true.
+Proof. vm_compute. auto. Qed.
